@@ -53,7 +53,7 @@ class C10(Check):
                  "_jpeg + PIL", "precomputed_io", "file / sharded accessors"],
         "simulated": ["raw file I/O (SimFS)", "stored-byte corruption"],
     }
-    tiers = {"quick": dict(runs=1200, budget=60),
+    tiers = {"quick": dict(runs=5000, budget=60),
              "thorough": dict(runs=40000, budget=720)}
     expected_probes = ["outcome_array", "outcome_InvalidFormatError",
                       "kind_truncate", "kind_field_channel_offset",
